@@ -552,10 +552,8 @@ async fn challenge_event(w: &mut World, t: &mut Trace, which: usize, plan: &[Beh
                             }
                         }
                         "dup" => {
-                            // what it has, repeated until there are five entries
-                            let base = a.clone();
-                            let mut j = 0;
-                            while !base.is_empty() && a.len() < 5 { a.push(base[j % base.len()].clone()); j += 1; }
+                            // the closest record it has (the target itself when it holds it), five times
+                            if !a.is_empty() { let first = a[0].clone(); a = vec![first; 5]; }
                         }
                         "errEntries" => {
                             // it says which of the closest records it lacks: an error entry for the `at`-th
@@ -601,7 +599,8 @@ async fn challenge_event(w: &mut World, t: &mut Trace, which: usize, plan: &[Beh
     for (i, k) in undo_add { let r = w.rec(k).clone(); remove(&mut w.peers[i], &r); w.held[i].retain(|x| *x != k); }
     for (i, k) in undo_remove { let r = w.rec(k).clone(); put(&mut w.peers[i], &r).await; w.held[i].push(k); }
     for i in 0..w.peers.len() { settle(&mut w.peers[i]).await; }
-    let target = expected.first().cloned().unwrap_or(0);
+    // the target is what the requests say (when there are requests); the first record read is the closest expected one
+    let target = reqs.first().map(|r| uz(&r["key"]) as usize).unwrap_or(expected.first().cloned().unwrap_or(0));
     for r in resp.iter_mut() { r["msHi"] = json!(ms_hi.max(uz(&r["msLo"]))); }
     w.ids.flush(t);
     t.emit(json!({"ev":"Challenge","run":w.run,"chal":which + 1,"self":self_id,"peers":known_ids,"own":own_chunks,"ownOthers":own_others,
@@ -782,6 +781,13 @@ async fn run() {
             }).collect();
             let scn = json!({"kind":"challenge","resp": plan.iter().map(|b| json!({"beh": b.beh, "lack": b.lack, "extra": b.extra, "at": b.at, "how": b.how})).collect::<Vec<_>>()});
             challenge_event(&mut w, &mut t, 0, &plan, &scn, "random").await;
+        }
+        // a peer that holds nothing but the target and repeats its proof (findings/CHAL-duplicate-proofs-inflate-score)
+        {
+            let mut plan = vec![honest(), honest(), honest(), honest()];
+            plan[0] = Beh { beh: "dup".into(), lack: vec![2, 3, 4, 5], ..honest() };
+            let scn = json!({"kind":"challenge","resp": plan.iter().map(|b| json!({"beh": b.beh, "lack": b.lack, "extra": b.extra, "at": b.at, "how": b.how})).collect::<Vec<_>>()});
+            challenge_event(&mut w, &mut t, 0, &plan, &scn, "class").await;
         }
         // boundary worlds on the second challenger: 3 peers (one too few) / 4 peers and 49 chunks (+3 pads) / 4 peers and 50 chunks
         let plan = vec![honest(), honest(), honest(), honest()];
